@@ -37,6 +37,9 @@ func (o Op12) String() string {
 	case "setter":
 		return spec.SetterNames[o.Setter] + "=" + quote(string(o.Value))
 	case "clone-sp":
+		if o.Handle%4 >= 2 {
+			return "u.Parse(" + quote([]string{"", "#x"}[o.Handle%2]) + ").SearchParams()." + o.SP.String()
+		}
 		return "u.Clone().SearchParams()." + o.SP.String()
 	case "swap-list":
 		return "u.SetSearchParams(u.SearchParams().Clone())"
@@ -279,6 +282,12 @@ func Check12(c Case12, r *core.Rec) {
 			}
 			q0, h0 := u.Query(), u.Href(false)
 			cl := u.Clone()
+			if o.Handle%4 >= 2 {
+				// ... nor is one on the result of resolving a reference that keeps the query
+				if v, verr := u.Parse([]string{"", "#x"}[o.Handle%2]); verr == nil && v != nil {
+					cl = v
+				}
+			}
 			applyImpl(cl.SearchParams(), o.SP)
 			if q := u.Query(); q != q0 || u.Href(false) != h0 {
 				r.Failf("after %s: an operation on a clone's list changed this URL's Query() from %s to %s (Href %s)", hist12(c, i), quote(q0), quote(q), quote(u.Href(false)))
@@ -451,7 +460,7 @@ func genMediumQuery(t *rapid.T) string {
 
 var P12 = core.Register(core.Prop[Case12]{
 	ID: "C12",
-	Rule: "a start URL (special / non-special, with and without query and fragment, opaque path; a quarter of the cases obtained by resolving a reference against — or cloning — a URL whose SearchParams() was or was not called before) and 1..12 steps: fetch a SearchParams handle (at any point, repeatedly), a list operation through any live handle, SetSearch(v) (incl. '', '?', delimiters, '#', tab), another setter (hash, pathname, host, protocol, username, port), SetSearchParams with a Clone of the URL's own list (which then is its list), another URL being handed this URL's list, a list operation on a Clone of the URL (not an operation on this URL: query and handles stay); lists of 9..40 parameters in an eighth of the starts and setter values, and the names a replaced list held stay among the names looked up; " +
+	Rule: "a start URL (special / non-special, with and without query and fragment, opaque path; a quarter of the cases obtained by resolving a reference against — or cloning — a URL whose SearchParams() was or was not called before) and 1..12 steps: fetch a SearchParams handle (at any point, repeatedly), a list operation through any live handle, SetSearch(v) (incl. '', '?', delimiters, '#', tab), another setter (hash, pathname, host, protocol, username, port), SetSearchParams with a Clone of the URL's own list (which then is its list), another URL being handed this URL's list, a list operation on a Clone of the URL or on the result of resolving '' / '#x' against it (not an operation on this URL: query and handles stay); lists of 9..40 parameters in an eighth of the starts and setter values, and the names a replaced list held stay among the names looked up; " +
 		"oracle, after every step: I1 after a list mutation Query / Search / the query part of Href equal the list's serialization, and so does the list u.SearchParams() returns then; I2 after SetSearch every live handle and a fresh one equal the form-urlencoded parse of the new query (empty after clearing); I3 other setters leave the query and the list alone; I4 all live handles show the same expected list (Get/GetAll/Has for all names in play + String); " +
 		"non-trivial = the history has a SetSearch followed by a list mutation through a handle obtained before it; distinct by hash of the history",
 	Gen:   Gen12,
